@@ -51,14 +51,18 @@ func open(dir string, id uint64, clock uint64, seq *uint64) (*tsi.IndexBuilder, 
 	return b, pi.(*tsi.MergeSetIndex)
 }
 
-// layout constants of the index items (engine/index/tsi and mergeset.isDeleted): namespace prefixes, separators
-const (
-	nsKeyToTSID  = 0
-	nsTSIDToKey  = 1
-	nsTagToTSIDs = 2
-	tagSep       = 1
-	kvSep        = 2
+// layout of the index items, taken from the repository (verif hooks): the namespace prefixes that carry series ids, the
+// key/value separator of a key->tsid item, the separator that ends the marshaled tag key / value of a tag->tsids item and the
+// length of a marshaled tsid - the positions mergeset.isDeleted and the row filter read
+var (
+	nsKeyToTSID, nsTSIDToKey, nsTagToTSIDs, kvSep byte
+	idLen                                         int
+	tagSep                                        byte = tsi.VerifC13TagSeparator
 )
+
+func init() {
+	nsKeyToTSID, nsTSIDToKey, nsTagToTSIDs, kvSep, idLen = mergeset.VerifC13ItemLayout()
+}
 
 type decoded struct {
 	head string
@@ -69,24 +73,24 @@ type decoded struct {
 // decode splits an item into the bytes outside its series ids and the ids, reading the same positions isDeleted reads
 func decode(item []byte) decoded {
 	n := len(item)
-	if n >= 9 && item[0] == nsKeyToTSID && item[n-9] == kvSep {
-		return decoded{string(item[:n-8]), n - 8, []uint64{binary.BigEndian.Uint64(item[n-8:])}}
+	if n >= idLen+1 && item[0] == nsKeyToTSID && item[n-idLen-1] == kvSep {
+		return decoded{string(item[:n-idLen]), n - idLen, []uint64{binary.BigEndian.Uint64(item[n-idLen:])}}
 	}
-	if n >= 9 && item[0] == nsTSIDToKey {
-		return decoded{string(item[:1]) + string(item[9:]), n - 8, []uint64{binary.BigEndian.Uint64(item[1:9])}}
+	if n >= idLen+1 && item[0] == nsTSIDToKey {
+		return decoded{string(item[:1]) + string(item[1+idLen:]), n - idLen, []uint64{binary.BigEndian.Uint64(item[1 : 1+idLen])}}
 	}
-	if n >= 9 && item[0] == nsTagToTSIDs {
+	if n >= idLen+1 && item[0] == nsTagToTSIDs {
 		a := bytes.IndexByte(item[1:], tagSep)
 		if a >= 0 {
 			b := bytes.IndexByte(item[1+a+1:], tagSep)
 			if b >= 0 {
 				h := 1 + a + 1 + b + 1
 				tail := item[h:]
-				if len(tail) > 0 && len(tail)%8 == 0 {
+				if len(tail) > 0 && len(tail)%idLen == 0 {
 					d := decoded{head: string(item[:h]), base: h}
 					for len(tail) > 0 {
-						d.ids = append(d.ids, binary.BigEndian.Uint64(tail[:8]))
-						tail = tail[8:]
+						d.ids = append(d.ids, binary.BigEndian.Uint64(tail[:idLen]))
+						tail = tail[idLen:]
 					}
 					return d
 				}
@@ -272,7 +276,7 @@ func main() {
 		}
 		gen.Emit(map[string]any{"heads": hn})
 	}
-	gen.Emit(map[string]any{"purge_items": true, "cap": mergeset.VerifC13MaxInmemoryBlockSize, "series": n, "dropped_series": len(dl),
+	gen.Emit(map[string]any{"purge_items": true, "tsid_len": idLen, "cap": mergeset.VerifC13MaxInmemoryBlockSize, "series": n, "dropped_series": len(dl),
 		"deleted": dj, "parts": parts, "after": pairs, "items_before": nitems, "bytes_before": nbytes, "rows_with_several_ids": nrows,
 		"parts_before": len(before), "parts_after": len(after)})
 }
